@@ -265,6 +265,17 @@ func judgeLog(lines []string) []verdict {
 	if nDeq > 0 {
 		vs = append(vs, verdict{"log_restore_first", len(restBad) == 0, fmt.Sprintf("%d connections with a dequeuer on the backend log; %s", nDeq, joinLines(clipList(restBad, 6)))})
 	}
+	// --- log_publish_serial (C15: one processor goroutine per connection hands the messages to the backend in arrival order,
+	// one at a time; component theorem C15_in_order): no two Publish calls of one connection overlap
+	var overlapBad []string
+	for i, e := range evs {
+		if e.kind == "PublishOverlap" {
+			overlapBad = append(overlapBad, fmt.Sprintf("line %d: connection %s entered Backend.Publish while an earlier Publish call of it was still in progress", i, e.c))
+		}
+	}
+	if len(overlapBad) > 0 {
+		vs = append(vs, verdict{"log_publish_serial", false, joinLines(clipList(overlapBad, 4))})
+	}
 	setupCalls := map[string]int{}
 	terms := map[string]int{}
 	termRet := map[string]bool{}
